@@ -16,6 +16,8 @@ package main
 
 import (
 	"fmt"
+	"io"
+	"log"
 	"os"
 	"strings"
 	"time"
@@ -30,6 +32,7 @@ var deadline time.Time
 func main() {
 	ctx = hx.Start("secure")
 	defer ctx.Finish()
+	log.SetOutput(io.Discard) // the library logs transport switches
 	ctx.Rule("context cases: distinct (key, MKI, SSRC list, ROC vector, pre-sent sequence numbers) tuples; " +
 		"message cases: distinct mutated MIKEY records; ROC cases: distinct (start ROCs, sequence list, delivery order); " +
 		"admission: distinct (listeners, TLS, tunnel, transport list); client: distinct (scheme, protocol, profile, mode); " +
